@@ -9,14 +9,16 @@
 EXTENDS Integers, Sequences, TLC, Json
 CONSTANTS W, Steps
 VARIABLES kind, n, sigma, acc, prop, done, out, gpos, fresh, phase, used, sc
-S == INSTANCE Seeds WITH MaxChains <- 5, Derive <- "wrapping", PropSeed <- "perchain", HmcDraws <- "own"
+S == INSTANCE Seeds WITH MaxChains <- 600, Derive <- "wrapping", PropSeed <- "perchain", HmcDraws <- "own"
 
 SeedName(s) == CASE s = 0 -> "0" [] s = 1 -> "1" [] s = 2 -> "42"
                  [] s = W - 2 -> "18446744073709551614" [] s = W - 1 -> "18446744073709551615"
 SeedClasses == {0, 1, 2, W - 2, W - 1}
+\* n = 600 (HMC only): a batch large enough that an implementation might split the draw generation over threads
 Scenarios ==
-  [kind : {"MH", "Gibbs", "HMC", "NUTS"}, n : {1, 2, 3, 5}, seed : SeedClasses,
-   threads : {1, 2, 4, 16}, concurrent : {"none", "same", "hmc"}, progress : {FALSE, TRUE}, second : {FALSE, TRUE}]
+  {x \in [kind : {"MH", "Gibbs", "HMC", "NUTS"}, n : {1, 2, 3, 5, 600}, seed : SeedClasses,
+           threads : {1, 2, 4, 16}, concurrent : {"none", "same", "hmc"}, progress : {FALSE, TRUE}, second : {FALSE, TRUE}] :
+      x.n <= 5 \/ (x.kind = "HMC" /\ x.concurrent = "none")}
 Init == /\ sc = [kind |-> "none"]
         /\ kind = <<>> /\ n = <<>> /\ sigma = <<>> /\ acc = <<>> /\ prop = <<>> /\ done = <<>> /\ out = <<>>
         /\ gpos = 0 /\ fresh = 0 /\ phase = <<>> /\ used = <<>>
